@@ -127,12 +127,27 @@ class LoopSpec:
     after the loop continues from a havocked state that satisfies the invariant at exit."""
 
     def __init__(self, inv, havoc, variant=None, name=None, at_exit=None, body_post=None):
-        self.inv = inv
-        self.havoc = havoc
-        self.variant = variant
         self.name = name
+        self.inv = self._guard(inv, "invariant")
+        self.havoc = self._guard(havoc, "havoc")
+        self.variant = self._guard(variant, "variant")
         self.at_exit = at_exit
-        self.body_post = body_post  # body_post(st, env, k, old): extra obligations about one generic iteration
+        self.body_post = self._guard(body_post, "iteration post-condition")  # body_post(st, env, k, old): extra obligations about one generic iteration
+
+    def _guard(self, fn, what):
+        """a sidecar clause that cannot find the program variable / attribute it talks about (renamed local, restructured loop) does not fit
+        the code any more: that is 'undecided', never an exception of the program and never a refutation"""
+        if fn is None:
+            return None
+        name = self.name
+
+        def wrapped(*a, **k):
+            try:
+                return fn(*a, **k)
+            except (KeyError, NameError, AttributeError, IndexError, TypeError) as e:
+                raise Unsupported("the %s of loop %r does not fit the code any more (%s: %s)" % (what, name, type(e).__name__, e))
+
+        return wrapped
 
     def _begin_iteration(self, st, env, node):
         """after havoc: remember what must stay unchanged in one iteration unless it was havocked"""
@@ -377,3 +392,14 @@ class SortedLazy:
             st.assume(z3.And(p >= 0, p < z3num(n)))
             memo[id(self)] = (self, self.base._at(SR(p)))
         return memo[id(self)][1]
+
+
+def local_named(env, expected, pred, exclude=()):
+    """the local variable a sidecar clause talks about: the expected name if the code still uses it, otherwise the only local that has
+    the expected kind of value (a pure renaming); anything else: the clause does not fit the code (undecided)"""
+    if expected in env.vars:
+        return expected
+    cand = [k for k, v in env.vars.items() if k not in exclude and pred(v)]
+    if len(cand) != 1:
+        raise Unsupported("local %r not found and %d candidates %s" % (expected, len(cand), cand))
+    return cand[0]
